@@ -140,6 +140,9 @@ def execute(sc, ctx):
         with builtins.open(rn, "w") as f:
             f.write(sc["renames"])
     ndirs = 2 if sc.get("ndirs") == 2 else 1
+    # every crash variant boots fresh instances; the pyparsing-based parser is ~18x slower and irrelevant to what is judged
+    # here, so interrupted histories always use the line parser
+    parser = 1 if sc["crash_step"] is not None else sc["parser"]
     dpaths = [os.path.join(sb, DIRNAMES[d]) for d in range(ndirs)]
     fs = simfs.SimFS(sb, chunk=sc["chunk"])
     mods = [simproc.core]
@@ -190,7 +193,7 @@ def execute(sc, ctx):
         # one node per step (a fresh process per sync, cumulative assignments), reused across crash variants
         for idx, (_, st, _c) in enumerate(steps):
             try:
-                k = simproc.new_kconfig(kpaths[min(st["ver"], len(kpaths) - 1)], parser=sc["parser"], renames=[rn] if rn else None)
+                k = simproc.new_kconfig(kpaths[min(st["ver"], len(kpaths) - 1)], parser=parser, renames=[rn] if rn else None)
                 with simproc.quiet():
                     assign(k, cums[idx])
                     nodes[idx] = describe(k)
@@ -202,7 +205,7 @@ def execute(sc, ctx):
         """A new process for the sync of step idx (every crash variant is its own world: instances are not shared between
         worlds, and no instance survives the crash inside one)."""
         st = steps[idx][1]
-        k = simproc.new_kconfig(kpaths[min(st["ver"], len(kpaths) - 1)], parser=sc["parser"], renames=[rn] if rn else None)
+        k = simproc.new_kconfig(kpaths[min(st["ver"], len(kpaths) - 1)], parser=parser, renames=[rn] if rn else None)
         with simproc.quiet():
             assign(k, cums[idx])
         return k
@@ -215,7 +218,7 @@ def execute(sc, ctx):
         st = steps[idx][1]
         ver = min(st["ver"], len(kpaths) - 1)
         if ver not in live:
-            live[ver] = [simproc.new_kconfig(kpaths[ver], parser=sc["parser"], renames=[rn] if rn else None), 0]
+            live[ver] = [simproc.new_kconfig(kpaths[ver], parser=parser, renames=[rn] if rn else None), 0]
         k, done = live[ver]
         with simproc.quiet():
             assign(k, cums[idx][done:])
@@ -241,7 +244,7 @@ def execute(sc, ctx):
         with builtins.open(dfl, "w", encoding="utf-8") as f:
             f.write("".join(kgen.assign_line(nm, alltab[nm]["type"], v) for nm, v in cums[idx] if nm in alltab))
         args = ["--kconfig", kpaths[min(st["ver"], len(kpaths) - 1)], "--defaults", dfl, "--env", "IDF_TARGET=esp32", "--env", "IDF_VERSION=v9.9",
-                "--env", "KCONFIG_REPORT_VERBOSITY=quiet", "--env", "KCONFIG_PARSER_VERSION=%d" % sc["parser"], "--output", "cdep_tree", dpaths[d]]
+                "--env", "KCONFIG_REPORT_VERBOSITY=quiet", "--env", "KCONFIG_PARSER_VERSION=%d" % parser, "--output", "cdep_tree", dpaths[d]]
         if rn:
             args += ["--sdkconfig-rename", rn]
         simproc.fresh_report()
@@ -435,6 +438,21 @@ def execute(sc, ctx):
                 return
         n_ops = fs.opcount
         kinds = [j[1] for j in fs.journal[snap_journal:]]
+        n_writes = sum(1 for x in kinds if x == "write")
+        if n_writes > 60:
+            # keep the enumeration affordable: a larger effective chunk (the enumeration stays complete with respect to it,
+            # as in C13), then the dry run is repeated
+            fs.chunk = fs.chunk * (1 + n_writes // 60)
+            restore()
+            fs.arm()
+            for d in step_dirs(crash_idx):
+                try:
+                    sync(prepare(crash_idx)[0] if False else fresh(crash_idx), d)
+                except SyncRaised:
+                    return
+            n_ops = fs.opcount
+            kinds = [j[1] for j in fs.journal[snap_journal:]]
+            ctx.counters["probe:chunk-enlarged"] += 1
         trace.append(kinds)
         if n_ops != len(kinds):
             ctx.violate("C12/harness/op-count", f"dry run counted {n_ops} operations but journalled {len(kinds)}")
